@@ -116,7 +116,7 @@ def datetime_iso(draw, profile="json"):
 
 
 _URIS = ["http://example.org/a", "urn:x:1", "http://a/e1", "mailto:a@b.c", "http://example.org/q?x=1&y=2#f",
-         "http://example.org/é", "file:///tmp/x y"]
+         "http://example.org/é", "file:///tmp/x y", "prov:looks-like-a-prov-name", "xsd:string"]
 _LANGS = ["en", "fr-CA", "de", "EN-gb"]
 _FOREIGN_XSD = ["float", "decimal", "gYear", "integer", "short", "token", "date", "unsignedInt"]
 
@@ -128,7 +128,9 @@ def typed_literal(profile):
     xsd_dt = st.sampled_from(_FOREIGN_XSD + (["QName"] if profile == "json" else [])).map(
         lambda l: {"ns": spec.XSD_NS, "local": l, "prefix": "xsd", "as": "qn"})
     lex = st.one_of(st.sampled_from(["1", "1.50", "2012", "abc", "", " 7 ", "ex:foo"]), text_value(profile))
-    return st.builds(lambda v, dt: {"k": "lit", "v": v, "dt": dt}, lex, st.one_of(xsd_dt, user_dt))
+    # prov:InternationalizedString WITHOUT a language tag is just another datatype
+    istr = st.just({"ns": spec.PROV_NS, "local": "InternationalizedString", "prefix": "prov", "as": "qn"})
+    return st.builds(lambda v, dt: {"k": "lit", "v": v, "dt": dt}, lex, st.one_of(xsd_dt, user_dt, xsd_dt, user_dt, istr))
 
 
 def native_typed_literal():
